@@ -86,10 +86,10 @@ def body_wiring(umn: bool, root: bool, v0: bool, v1: bool, v2: bool, v3: bool, p
 
 POOL2 = [".Links", ".names", "a.txt", "b.txt", "zdir", "hid", "b2.txt"]
 LINKS = b"Name=From Links\nPath=./a.txt\nNumb=2\n\nName=Remote\nType=1\nPath=/r1\nHost=h.example\nPort=70\nNumb=1\n\nType=X\nPath=./b2.txt\n"
-NAMESF = b"Name=From names\nPath=./a.txt\nAbstract=abs from names\n\nName=Bee\nPath=./b.txt\nNumb=-1\n\nType=X\nPath=./hid/\n\nName=Title for the hidden one\nPath=./b2.txt\n"
+NAMESF = b"Name=From names\nPath=./a.txt\nAbstract=abs from names\n\nName=Bee\nPath=./b.txt\nNumb=-1\n\nType=X\nPath=./hid/\n\nName=Title for the hidden one\nPath=./b2.txt\n\nType=X\nPath=./b2.txt\n\nType=X\nPath=./gone-long-ago.txt\n\nType=-\nPath=./dash.txt\n"
 
 
-EXTRA2 = [".cap", "capx.txt", "aa-dangling"]  # always enumerated last; sorting puts the dangling link FIRST
+EXTRA2 = [".cap", "capx.txt", "aa-dangling", "dash.txt"]  # always enumerated last; sorting puts the dangling link FIRST
 
 
 def _nodes2(order):
@@ -101,7 +101,9 @@ def _nodes2(order):
              # hidden by its .cap file (which, like most hand-edited files, ends with an empty line)
              "/d/.cap": mv.Dir(["capx.txt"]), "/d/.cap/capx.txt": mv.File(b"Type=X\n\n"), "/d/capx.txt": mv.File(b"c\n"),
              # an entry that cannot be served must not take the ones after it with it
-             "/d/aa-dangling": mv.Fail(errno.ENOENT)}
+             "/d/aa-dangling": mv.Fail(errno.ENOENT),
+             # hidden by a `Type=-` block; b2.txt is hidden twice (.Links and .names); one block hides a file that is gone
+             "/d/dash.txt": mv.File(b"-\n")}
     return nodes
 
 
@@ -120,7 +122,12 @@ def _listing2(umn, order):
         dl.restore_dir_env()
 
 
-REF2 = {u: _listing2(u, [0, 1, 2, 3, 4, 5, 6]) for u in (False, True)}
+REF2 = {}
+for _u in (False, True):
+    try:
+        REF2[_u] = _listing2(_u, [0, 1, 2, 3, 4, 5, 6])
+    except Exception as _e:  # judged in the body (a crash here would hide the finding)
+        REF2[_u] = None
 
 
 def body_order(umn: bool, i0: int, i1: int, i2: int, i3: int, i4: int) -> bool:
@@ -130,19 +137,22 @@ def body_order(umn: bool, i0: int, i1: int, i2: int, i3: int, i4: int) -> bool:
         order.append(rest.pop(i))
     order.append(rest[0])
     order.insert(i4 + i0 if i4 + i0 <= 6 else 6, 6)  # the 7th name (hidden by .Links, named by .names) at a derived position
-    got = _listing2(umn, order)
+    try:
+        got = _listing2(umn, order)
+    except Exception as e:
+        raise hx.Violation("C07:listing-raises:%s" % type(e).__name__, "%s order=%r: %r" % ("UMN" if umn else "Dir", [POOL2[i] for i in order], e))
     hx.reach()
-    hx.require(got == REF2[umn], "C07:listing-depends-on-enumeration-order",
+    hx.require(REF2[umn] is not None and got == REF2[umn], "C07:listing-depends-on-enumeration-order",
                lambda: "%s order=%r: %r vs sorted-order listing %r" % ("UMN" if umn else "Dir", [POOL2[i] for i in order], got, REF2[umn]))
     sels = [g[2] for g in got]
     hx.require(len(sels) == len(set(sels)), "C07:entry-listed-twice", lambda: repr(sels))
     if umn:
         # documented: a Type=X block hides the entry it names (also when the Path is written with a trailing slash)
-        hx.require("/d/hid" not in sels and "/d/hid/" not in sels and "/d/b2.txt" not in sels and "/d/capx.txt" not in sels, "C07:entry-hidden-by-metadata-is-listed", lambda: repr(sels))
+        hx.require("/d/hid" not in sels and "/d/hid/" not in sels and "/d/b2.txt" not in sels and "/d/capx.txt" not in sels and "/d/dash.txt" not in sels and "/d/gone-long-ago.txt" not in sels, "C07:entry-hidden-by-metadata-is-listed", lambda: repr(sels))
         hx.require(sorted(sels) == sorted(["/r1", "/d/a.txt", "/d/b.txt", "/d/zdir"]), "C07:listing-not-exactly-visible-entries", lambda: repr(sels))
     else:
         # the plain DirHandler has no implicit dot-file rule and reads no metadata: everything the ignore pattern lets through
-        hx.require(sorted(sels) == sorted(["/d/.Links", "/d/.names", "/d/a.txt", "/d/b.txt", "/d/b2.txt", "/d/capx.txt", "/d/hid", "/d/zdir"]), "C07:listing-not-exactly-visible-entries", lambda: repr(sels))
+        hx.require(sorted(sels) == sorted(["/d/.Links", "/d/.names", "/d/a.txt", "/d/b.txt", "/d/b2.txt", "/d/capx.txt", "/d/dash.txt", "/d/hid", "/d/zdir"]), "C07:listing-not-exactly-visible-entries", lambda: repr(sels))
     return True
 
 
